@@ -47,3 +47,5 @@ pub assume_specification<T>[ <[T]>::reverse ](s: &mut [T])
     ensures final(s)@ == old(s)@.reverse();
 pub assume_specification<T, A: std::alloc::Allocator, F: FnMut(&T) -> bool>[ Vec::<T, A>::retain::<F> ](v: &mut Vec<T, A>, f: F)
     ensures final(v)@.len() <= old(v)@.len(), forall|j: int| 0 <= j < final(v)@.len() ==> old(v)@.contains(#[trigger] final(v)@[j]);
+/// std::mem::drop: consumes its argument (no observable effect for the plain data the extracted code drops early).
+pub assume_specification<T>[ std::mem::drop::<T> ](x: T);
